@@ -75,6 +75,14 @@ func roundTripX(c Case, exclude bool) (outcome, error) {
 		return outcome{status: status, p: p}, fmt.Errorf("File.Render failed for a valid program: %s", rtpkg.Short(err.Error(), 1200))
 	}
 	if err := rtpkg.Compare(p.AST, out); err != nil {
+		if exclude {
+			// general form of KF1: gofmt turned the raw rendering into text that does not parse
+			twin := p.Recipe.Clone()
+			twin.Ops = append(twin.Ops, recipe.FileOp{Op: "NoFormat"})
+			if raw, rerr := rtpkg.Render(&recipe.Builder{}, twin); rerr == nil && knownfind.GofmtBreaks(raw) {
+				return outcome{status: "excluded-known", why: "KF1"}, nil
+			}
+		}
 		return outcome{status: status, p: p}, err
 	}
 	return outcome{status: status, p: p}, nil
